@@ -4,6 +4,63 @@ import common as C
 import boardcorr as B
 
 COMMON_FIELDS = ("panic", "from_fen", "engine.panic")
+# engine = model on observables that the rules of chess / the property do not fix by themselves: the set of attacked squares as an
+# intermediate result, the number of pseudo-legal moves, the shape of an undo record, the numeric value of the key (any function of
+# the position will do for C04; that it IS one is judged on the engine: key = from-scratch key, equal positions have equal keys).
+# A divergence there is a broken correspondence (reported, `no-failing-input-found`), not an input on which the property fails.
+INTERNAL_FIELDS = ("attacked.white", "attacked.black", "pseudo.count", "state.history", "state.zkey", "state.scratch_key", "legal.order")
+CORE_NAMES = ["turn", "fullmove", "ep"] + ["bb%d" % i for i in range(15)] + ["zkey"]
+REC_NAMES = ["start", "dest", "piece", "captured", "promoted", "flags", "halfmove_clock", "castling_rights"]
+REC_PROPERTY = ("halfmove_clock", "castling_rights")
+
+
+def state_diff(es, ms):
+    """engine state vs model state ([core+keys], undo stack, earlier positions) -> (property-level difference | None, internal-only
+    difference | None): placement, side, en-passant file, counters, the CURRENT rights and clock and the remembered positions are
+    fixed by the rules; the numeric key and the rest of the undo records are not"""
+    names = (["turn", "fullmove", "ep"] + ["bb%d" % i for i in range(15)] + ["zkey", "scratch_key"])
+    internal = None
+    for nm, a, b in zip(names, es[0], ms[0]):
+        if a != b:
+            if nm in ("zkey", "scratch_key"):
+                internal = internal or "key differs from the model key (%s): engine %s, model %s" % (nm, a, b)
+                continue
+            return "position differs in %s: engine %s, model %s" % (nm, a, b), None
+    if es[1] != ms[1]:
+        te = es[1][-1][6:8] if es[1] else None
+        tm = ms[1][-1][6:8] if ms[1] else None
+        if te != tm or len(es[1]) != len(ms[1]):
+            return "castling rights / half-move clock (top of the undo stack) or the number of moves made differ: engine %s, model %s" % (es[1][-2:], ms[1][-2:]), None
+        internal = internal or "undo records differ in fields the rules do not fix: engine %s, model %s" % (es[1][-2:], ms[1][-2:])
+    if internal is None and sorted(es[2]) != sorted(ms[2]):
+        return "record of earlier positions differs", None
+    return None, internal
+
+
+def digest_detail(case, node, move):
+    """make.digest differs for one successor: get the undigested successor state from both sides and say which components differ.
+    -> (list of component names, property_level: bool) or None when it cannot be evaluated"""
+    ms = case["moves"][:max(node, 0)]
+    rc, so, se = C.driver(["walk", "full"], "%s | %s\n" % (case["fen"], " ".join(ms)), timeout=120)
+    try:
+        en = json.loads(so.splitlines()[0])["nodes"][-1][1]
+    except Exception:
+        return None
+    item = ("match from_fen %s with Some b0 => match play b0 [%s] with Some b => map (probe_move_full b) (get_legal_moves b) | None => [] end | None => [] end"
+            % (B.coq_str(case["fen"]), "; ".join(B.coq_str(m) for m in ms)))
+    vals, lg = C.coq_eval_items("bfull", B.HEADER, [item], lambda l: l, nshards=1, timeout=300)
+    if vals is None or vals[0] is None:
+        return None
+    mo = B.norm(vals[0])
+    e = [x for x in en if list(x[0]) == list(move)]
+    m = [x for x in mo if list(x[0]) == list(move)]
+    if not e or not m:
+        return None
+    ecore, elast = e[0][1], e[0][2]
+    mcore, mlast = m[0][1], m[0][2]
+    diff = [n for n, a, b in zip(CORE_NAMES, ecore, mcore) if a != b] + [n for n, a, b in zip(REC_NAMES, elast, mlast) if a != b]
+    prop_level = any(n in REC_PROPERTY or (n in CORE_NAMES and n != "zkey") for n in diff)
+    return diff, prop_level
 
 
 def shrink_case(case, node):
@@ -55,14 +112,26 @@ def run(ctx, prop, fields, prefixes, what, has_proofs=True, extra_targets=()):
             continue
         seen.add(key)
         case = r["cases"][i]
-        rp = C.write_replay(prop, {"kind": what, "divergence": dv, "case": shrink_case(case, dv.get("node", 0)),
-                                   "full_case": case,
-                                   "replay_cmd": "printf '%%s | %%s\\n' '%s' '%s' | %s verif walk full" % (
-                                       case["fen"], " ".join(case["moves"][:max(dv.get("node", 0), 0)]), C.ENGINE)})
-        violations.append({"replay": rp})
+        is_int = dv["field"] in INTERNAL_FIELDS or dv["field"].startswith("spec.")
+        payload = {"kind": what, "divergence": dv, "case": shrink_case(case, dv.get("node", 0)),
+                   "full_case": case,
+                   "replay_cmd": "printf '%%s | %%s\\n' '%s' '%s' | %s verif walk full" % (
+                       case["fen"], " ".join(case["moves"][:max(dv.get("node", 0), 0)]), C.ENGINE)}
+        if dv["field"] == "make.digest":
+            det = digest_detail(case, dv.get("node", 0), dv.get("engine") or [])
+            if det is not None:
+                payload["successor_components_that_differ"] = det[0]
+                is_int = not det[1] and not (prop == "C04" and False)
+        if is_int:
+            payload["broken"] = ("correspondence engine = model on `%s` (board correspondence, lib/boardcorr.py)%s: the theorems of props/%s.v are about "
+                                 "the model, which no longer describes the code at this node; the property itself is judged at every node on the "
+                                 "observables the rules fix and on the engine alone (unmake restores, key = from-scratch key, ...)"
+                                 % (dv["field"], " — the model disagrees with spec/Rules.v" if dv["field"].startswith("spec.") else "", prop))
+        rp = C.write_replay(prop, payload)
+        violations.append({"replay": rp, "no_input": is_int})
     if not gate["ok"]:
         payload = {"broken": gate["failures"], "log": gate["log"][-3000:]}
-        if violations:
+        if [v for v in violations if not v.get("no_input")]:
             payload["witnesses"] = [v["replay"] for v in violations]
             C.write_replay(prop, payload)
         else:
